@@ -12,6 +12,15 @@ import traceback
 sys.path.insert(0, os.path.dirname(os.path.abspath(__file__)))
 import common  # noqa: E402
 
+def _quiet():
+    """the library logs through logzero (and sets INFO on import); keep the check's output to its own lines"""
+    import logging
+
+    import comb_spec_searcher  # noqa: F401
+    import logzero
+
+    logzero.loglevel(logging.CRITICAL)
+
 
 def main():
     ap = argparse.ArgumentParser()
@@ -24,6 +33,7 @@ def main():
     seed = int(os.environ.get("VERIF_SEED", "0") or 0)
     pid = a.pid.upper()
     mod = importlib.import_module(f"props.{pid.lower()}")
+    _quiet()
     t0 = time.time()
     if a.replay:
         with open(a.replay, encoding="utf-8") as fh:
